@@ -30,6 +30,11 @@ CLAIMED = {
          "Reference is ion-go's own plain full traversal (the property is stated relative to it); symbol tokens compared by text then SID.",
          "deterministic simulation: seeded caller programs as the schedule, reference-cursor model, simulated Source delivery plans",
          "DESIGN.md section 3 C08"),
+ "C10": ("exploration",
+         "Seeded histories of version markers, replacing and appending local symbol tables, imports and user values are rendered to binary and text, delivered under seeded delivery plans and read with catalogs in skewed states (exact, only newer, only older, missing; real ion.NewCatalog or a simulated repository); every observed symbol token, the binary reader's MaxID, the value count and the error expectation are compared with an executable symbol-context model.",
+         "Trusted: the symbol-context model (model/symctx.go) and the independent renderers; corners the statement does not pin down are not generated.",
+         "deterministic simulation: seeded event histories x catalog version skew (simulated external party) x delivery schedule, executable reference model",
+         "DESIGN.md section 3 C10"),
  "C12": ("exploration",
          "Seeded Writer call sequences (legal, misuse, reuse after Finish) on five writer configurations, fault-free twice and with one transient or sticky sink failure, checked call by call against a protocol automaton (stickiness of errors) and, when the final Finish returns nil, by independent spec-derived decoders against the automaton's value tree.",
          "Trusted: ionsim ref/bin and ref/text decoders, the protocol automaton; documented-open program points only held to P/S/V1/D.",
